@@ -62,7 +62,23 @@ def build_poly(case):
     return pp.Grid(2, xyz, fn, cf, "nonconvex_" + case["template"])
 
 
+def pre_apply(case, p):
+    """The prior rigid motion (exact) that embeds the grid before its geometry is computed
+    for the first time; identity if the case has none."""
+    if not case.get("pre_quat"):
+        return list(p)
+    return apply(rotation(case["pre_quat"]), [F(a, b) for a, b in case["pre_shift"]], p)
+
+
 def build(case):
+    g = build0(case)
+    if case.get("pre_quat"):
+        g.nodes = np.array([[float(x) for x in pre_apply(case, [F(c) for c in p])]
+                            for p in g.nodes.T.tolist()]).T.copy()
+    return g
+
+
+def build0(case):
     k = case["kind"]
     if k == "poly":
         return build_poly(case)
@@ -188,7 +204,11 @@ class C20(Prop):
             "triangle, notched heptagon + triangle; both loop orientations, random faces stored "
             "reversed, anisotropic dyadic scaling), checked against the exact shoelace area and "
             "centroid before and after the motion; every grid is also moved IN PLACE after its geometry "
-            "was computed and recomputed (history) and compared with a fresh grid; dyadic node perturbations (interior / all nodes; 3-D: "
+            "was computed and recomputed (history) and compared with a fresh grid; 25% of the 1-D/2-D "
+            "grids are first embedded on a generic line / plane by a prior exact rigid motion; a DIRECTED "
+            "stream of 4 cases in every run: 1-D grids on generic lines and a 2-D grid in a generic "
+            "plane, geometry computed, then moved in place by a half turn about a coordinate axis (quarter "
+            "turn about z for a line with |a| = |b|) with or without translation; dyadic node perturbations (interior / all nodes; 3-D: "
             "tetrahedral grids only); quarter/half turns about coordinate axes (17%); 2-D stream with reversed faces (fallback + plane fitting); "
             "exact rational rotation from an integer quaternion: entries in [-4,4] (incl. identity and "
             "axis-aligned quarter turns), SMALL angles 1e-6..1e-2 rad about arbitrary axes (N, a, b, c "
@@ -207,7 +227,36 @@ class C20(Prop):
         self.stats = {}
 
     # ------------------------------------------------------------------ generator
+    def _directed(self, rng):
+        """Present in EVERY run: grids whose geometry is computed on a generic line / in a generic
+        plane and which are then moved IN PLACE by a half turn about a coordinate axis (or a
+        quarter turn about z for a line with |a| = |b|), with or without a translation — motions
+        that keep all per-axis extents — and recomputed."""
+        half = [[0, 1, 0, 0], [0, 0, 1, 0], [0, 0, 0, 1]]
+        gen = lambda: rng.choice([[1, 2, 3, 4], [2, -1, 3, 1], [3, 1, -2, 2], [1, -3, 2, 2], [2, 3, 1, -1]])
+        sh = lambda: ([[0, 1]] * 3 if rng.random() < 0.5 else
+                      [[rng.randint(-12, 12), rng.choice([1, 2, 4])] for _ in range(3)])
+        base = {"perturb": "none", "scale": 1.0 / 64, "pert": [0], "swap_faces": []}
+        xs = [0.0]
+        for _ in range(rng.randint(2, 5)):
+            xs.append(xs[-1] + rng.choice([0.5, 1.0, 1.5, 2.0]))
+        yield dict(base, kind="cart", dims=[rng.randint(2, 6)], pre_quat=gen(),
+                   pre_shift=sh(), quat=rng.choice(half), shift=sh())
+        yield dict(base, kind="tensor", coords=[xs], pre_quat=gen(), pre_shift=sh(),
+                   quat=rng.choice(half), shift=sh())
+        # line direction (4, -4, -7)/9: a quarter turn about z keeps the extents
+        yield dict(base, kind="cart", dims=[rng.randint(2, 6)], pre_quat=[-3, -2, -1, 2],
+                   pre_shift=sh(), quat=rng.choice([[1, 0, 0, 1], [1, 0, 0, -1]]), shift=sh())
+        yield dict(base, kind=rng.choice(["cart", "tri"]), dims=[rng.randint(1, 3), rng.randint(1, 3)],
+                   pre_quat=gen(), pre_shift=sh(), quat=rng.choice(half), shift=sh())
+
     def generate(self, rng, n, tier):
+        for case in self._directed(rng):
+            yield case
+        for case in self._generate(rng, max(0, n - 4), tier):
+            yield case
+
+    def _generate(self, rng, n, tier):
         big = tier != "quick"
         m = 4 if big else 3
         sp = [0.5, 1.0, 1.0, 1.5, 2.0]
@@ -262,6 +311,13 @@ class C20(Prop):
             case["swap_faces"] = ([rng.randint(0, 10 ** 6) for _ in range(rng.randint(1, 2))]
                                   if (nd == 2 and case["kind"] != "poly" and rng.random() < 0.25)
                                   else [])
+            if nd < 3 and rng.random() < 0.25:
+                # embed the grid on a generic line / plane BEFORE the first compute_geometry
+                pq = [0, 0, 0, 0]
+                while not any(pq[1:]):
+                    pq = [rng.randint(-3, 3) for _ in range(4)]
+                case["pre_quat"] = pq
+                case["pre_shift"] = [[rng.randint(-8, 8), rng.choice([1, 2, 4])] for _ in range(3)]
             rq = rng.random()
             if rq < 0.05:
                 q = [1, 0, 0, 0]
@@ -381,7 +437,7 @@ class C20(Prop):
                 cy = sum((p[1] + q[1]) * (p[0] * q[1] - q[0] * p[1])
                          for p, q in zip(pts, pts[1:] + pts[:1])) / (3 * a2)
                 area = abs(a2) / 2
-                cen = [cx, cy, F(0)]
+                cen = pre_apply(case, [cx, cy, F(0)])
                 for nm, GG, ce in (("", G, cen), (" after the motion", G2, apply(R, t, cen))):
                     if not close(GG["vol"][c], area):
                         return (f"cell {c}{nm}: volume {GG['vol'][c]!r}, the polygon has area "
